@@ -26,11 +26,11 @@ import (
 // Params of a synthetic cabinet. relic reads the header, the reserve area and the folder headers; the CFFILE
 // entries and CFDATA blocks behind them are opaque bytes to it.
 type Params struct {
-	Folders  int  // NumFolders
-	Files    int  // NumFiles (header field only)
-	DataLen  int  // bytes from OffsetFiles to the end of the cabinet
-	Reserve  int  // 0 none; 1 reserve header with an all-zero 20-byte signature header whose CabinetSize is patched to TotalSize; 2 zero padding
-	Padding  int  // extra zero bytes in the reserve area (Reserve == 2)
+	Folders  int // NumFolders
+	Files    int // NumFiles (header field only)
+	DataLen  int // bytes from OffsetFiles to the end of the cabinet
+	Reserve  int // 0 none; 1 reserve header with an all-zero 20-byte signature header whose CabinetSize is patched to TotalSize; 2 zero padding
+	Padding  int // extra zero bytes in the reserve area (Reserve == 2)
 	Flags    uint16
 	Gap      int // bytes between the folder headers and OffsetFiles (irregular)
 	TotalAdj int // added to TotalSize (irregular)
@@ -262,10 +262,56 @@ func genMutations(w *bufio.Writer, r *hx.Rng, tier string) {
 	}
 }
 
+// genSpec (C05): cabinets of every reserve-area kind, unsigned / fake-signed once or twice / really re-signed by the patch
+// path, plus the repository's fixture and a malformed stream; op specdigest = specification's digest vs. the real imprint
+func genSpec(w *bufio.Writer, r *hx.Rng, tier string) {
+	n := 200
+	if tier == "thorough" {
+		n = 3000
+	}
+	repo := os.Getenv("VERIF_REPO")
+	if repo == "" {
+		repo = "/repo"
+	}
+	if fx, err := os.ReadFile(repo + "/functest/packages/dummy.cab"); err == nil {
+		fmt.Fprintf(w, "CAB specdigest %s\n", hx.Hex(fx))
+		if out, _, e := signOnce(fx, r.Bytes(77)); e == "" {
+			fmt.Fprintf(w, "CAB specdigest %s\n", hx.Hex(out))
+		}
+	}
+	for i := 0; i < n; i++ {
+		p := RandParams(r)
+		f := Build(r, p)
+		variant := r.Intn(10)
+		switch {
+		case variant < 3:
+		case variant < 5:
+			f = FakeSigned(f, r.Bytes(r.Pick(1, 8, 15, 16, 100)))
+			if r.Bool() {
+				f = FakeSigned(f, r.Bytes(r.Pick(3, 24, 200)))
+			}
+		case variant < 7: // signed by the real Digest -> MakePatch -> apply path
+			if out, _, e := signOnce(f, r.Bytes(r.Pick(1, 8, 9, 300))); e == "" {
+				f = out
+			}
+		default:
+			if r.Bool() {
+				f = FakeSigned(f, r.Bytes(r.Pick(1, 8, 100)))
+			}
+			f = Mutate(r, f)
+		}
+		fmt.Fprintf(w, "CAB specdigest %s\n", hx.Hex(f))
+	}
+}
+
 func Gen(w *bufio.Writer, seed uint64, tier string, prop string) {
 	r := hx.NewRng(seed ^ 0x434142)
 	if prop == "C02" {
 		genMutations(w, r, tier)
+		return
+	}
+	if prop == "C05" {
+		genSpec(w, r, tier)
 		return
 	}
 	n := 220
@@ -374,6 +420,14 @@ func Handle(f []string) (res string) {
 		}
 		return fmt.Sprintf("ok imprint=%s patched=%s %d %d %d", hex.EncodeToString(d.Imprint), hx.Hex(d.Patched),
 			d.Cabinet.Header.TotalSize, d.Cabinet.Header.OffsetFiles, d.Cabinet.SignatureHeader.Size())
+	case "specdigest":
+		// the real imprint, to be compared with the hash of the specification's digest input (Relic.Spec.CabDigest)
+		img := hx.MustUnHex(f[1])
+		d, err := cabfile.Digest(bytes.NewReader(img), crypto.SHA256)
+		if err != nil {
+			return "err " + classify(err)
+		}
+		return "ok spec imprint=" + hex.EncodeToString(d.Imprint)
 	case "sign":
 		img := hx.MustUnHex(f[1])
 		out, d, e := signOnce(img, hx.MustUnHex(f[2]))
